@@ -51,20 +51,26 @@ def reps_for(kind):
     if kind == "fintlist":
         return [([1, 2], [1, 2]), ((1, 2), [1, 2]), ("1,2", [1, 2]),
                 ("[1, 2]", [1, 2]), (np.array([1, 2]), [1, 2]),
-                ([1.0, 2.0], [1, 2]), ([], [])]
+                ([1.0, 2.0], [1, 2]), ([], []), ([5], [5]), ("5", [5]),
+                (np.array([5]), [5])]
     if kind == "f1dfloatduple":
         return [((1.0, 2.5), (1.0, 2.5)), ([1, 2.5], (1.0, 2.5)),
                 (np.array([1.0, 2.5]), (1.0, 2.5)),
                 ((np.float32(1), np.int8(2)), (1.0, 2.0))]
     if kind == "f2dfloatarray":
         return [([[1, 2], [3, 4.5]], np.array([[1, 2], [3, 4.5]])),
-                (np.array([[1, 2], [3, 4]]), np.array([[1., 2.], [3., 4.]]))]
+                (np.array([[1, 2], [3, 4]]), np.array([[1., 2.], [3., 4.]])),
+                ([[1, 2.5]], np.array([[1, 2.5]]))]
     if kind == "number":
         return [(2.5, 2.5), (3, 3), (np.float64(1.5), 1.5)]
     if kind == "user":
         return [(4.5, 4.5), (3, 3), (True, True), ("text µ", "text µ"),
                 ([1, 2, 3], [1, 2, 3]), (np.array([1.5, 2.5]),
-                                         np.array([1.5, 2.5]))]
+                                         np.array([1.5, 2.5])),
+                # containers with exactly one element stay containers
+                ([7], [7]), (["ctrl"], ["ctrl"]),
+                (np.array([[42.0]]), np.array([[42.0]])),
+                (np.array([2.5]), np.array([2.5]))]
     raise ValueError(kind)
 
 
